@@ -45,6 +45,12 @@ SOLV = {"ValueIteration": dict(gamma=0.9, epsilon=1e-3), "PolicyIteration": dict
         "PeriodicValueIteration": dict(gamma=0.9, epsilon=1e-3, period=3, clear_value_history_on_convergence=False), "SemiAsyncValueIteration": dict(gamma=0.9, epsilon=1e-3, max_batch_size=2, shuffle_states=True, random_seed=7)}     # non-default options on purpose
 PROB = {"forest": (Forest, ForestConfig, dict(S=6, p=0.2)), "de_moor": (DM, DMC, dict(max_demand=3, max_useful_life=2, lead_time=1, max_order_quantity=2))}
 def res(st): return (int(st.info.iteration), np.asarray(st.values), np.asarray(st.policy))
+# ---------------------------------------------------------------- 64-bit mode is process-global: a single-precision solver built in between must not switch it off
+d1 = S.ValueIteration(Forest(S=5, p=0.2), gamma=0.9, epsilon=1e-3, verbose=0)                       # double precision requested (default)
+s1 = S.ValueIteration(Forest(S=5, p=0.2), gamma=0.9, epsilon=1e-3, verbose=0, jax_double_precision=False); s1.solve(3)
+st = d1.solve(50); R.case(("interleaving", "double, single, solve(double)"), dict(order="double-precision solver constructed; single-precision solver constructed and solved; first solver solved"))
+if np.asarray(st.values).dtype != np.float64: R.fail("c20.float64_after_single_precision_solver", "a double-precision solver returns non-float64 values after a single-precision solver was constructed in the same process", dict(order="double, single, solve(double)"), str(np.asarray(st.values).dtype), "float64")
+jax.config.update("jax_enable_x64", True)
 # ---------------------------------------------------------------- three routes behave identically
 for sn, kw in SOLV.items():
     for pn, (pcls, pcfg, pkw) in (PROB.items() if TH or sn in ("ValueIteration", "PolicyIteration") else [("forest", PROB["forest"])]):
